@@ -50,6 +50,12 @@ SCOPE_FORMS = [
     ('define x 5 define f with x begin return {x + 1} end print [f 10]', [11]),
     ('define lamp "A" define f with lamp begin print lamp end f "B" print lamp', ['B', 'A']),
     ('assign x 5 define f with x begin assign x {x * 2} return x end print [f 4] print x', [8, 5]),
+    # no global variable exists at all: locals and parameters are still per call
+    ('define rec with n begin assign loc {n * 2} if {n > 0} rec {n - 1} print loc end rec 2', [0, 2, 4]),
+    ('define helper begin assign i 99 assign p 98 end define f with p begin repeat with i from 1 to 2 begin helper print i print p end end f 5', [1, 5, 2, 5]),
+    ('define inner with a begin assign t {a + 1} return t end define outer with a begin assign t 10 assign r [inner a] return {t + r} end print [outer 1]', [12]),
+    # a constant defined after the routine, or anywhere, does not replace a parameter or local of that name at run time
+    ('define f with lamp begin assign k 8 print k print lamp end define k 100 f "B"', [8, 'B']),
 ]
 
 
